@@ -1157,7 +1157,7 @@ def run(ctx):
                     "35% with a history on the same live netlist (uniquify, then 1-3 rounds of public-API edits incl. bulk removers, re-pointing, "
                     "leaf<->non-leaf changes, each followed by a fully checked uniquify); distinct = distinct spec; non-trivial = uniquify creates at least one definition")
         ctx.assumptions = ["leaf = Definition.is_leaf() as coded: no children AND no cables",
-                           "default naming policy (no EDIF namespace active)", "netlist self-contained (every reference inside it), acyclic",
+                           "DEFAULT and EDIF naming policies; EDIF.identifier entries are ASCII strings of moderate length (the 255-character limit of EDIF identifiers is not modelled)", "netlist self-contained (every reference inside it), acyclic",
                            "'instance reachable from top' = strictly below the top instance (the top instance itself is never re-pointed; docs: 'below the top instance')",
                            "data values are JSON-like (deepcopy modelled as identity)"]
     else:
@@ -1166,8 +1166,9 @@ def run(ctx):
                     "inside/outside, buses, EDIF.identifier entries, definitions outside the hierarchy; distinct = distinct spec; non-trivial = at least "
                     "one hierarchical instance is dissolved")
         ctx.assumptions = ["leaf = Definition.is_leaf() as coded: no children AND no cables (pass-through / wire-only / cable-only cells are hierarchy that flatten dissolves)",
-                           "default naming policy", "input well-formed, uniquified (every non-leaf instance below top is the only member of its definition's reference set), acyclic",
-                           "instances and cables named; names non-empty and without '/' (otherwise slash-joined path names are not injective and the property is unsatisfiable)",
+                           "input well-formed, uniquified (every non-leaf instance below top is the only member of its definition's reference set), acyclic",
+                           "instances and cables named, names non-empty; slash-joined path names of all instance occurrences and of all cables pairwise distinct (always true without '/'; two leaf occurrences with one joined name make the property unsatisfiable; a collision that involves only a dissolved shell is the open finding flatten.shell_name_collision.raises_value)",
+                           "DEFAULT and EDIF naming policies; EDIF.identifier entries are ASCII strings",
                            "'data' of a leaf instance = its dictionary without the naming keys .NAME / EDIF.identifier (flatten renews the identifier by design)"]
     if not ok:
         ctx.partial_notes.append("Lean build failed: correspondence not run against a driver")
